@@ -107,6 +107,7 @@ LIT_POOL = [
     b'by', 'with space', 'qu\'ote"s', 'line\nbreak', ' lead ',
     (1, 'a'), [1, [2, 'x']], {'k': (1,), 2: None}, '', 'x' * 90, 'back\\slash', 1e-7, -10**15,
     'long ' * 30, [('t', 1.5), {'n': [None, True]}], 'unicod\u00e9',
+    b'long bytes ' * 12, [b'wrapped ' * 15, 'x'],            # wider than any line width: pprint wraps them into adjacent literals
 ]
 # ... and values with no literal form (must be omitted from config strings, never printed)
 def _nonlit_pool():
@@ -476,7 +477,7 @@ class World:
       # every other caller value is an object that compares equal to anything
       return EqAny((t, v[1])) if (self.step + self.pool_seed + len(str(v[1]))) % 2 else (t, v[1])
     if t == 'ref':
-      text = '@' + '/'.join(list(v[2]) + [dotted(v[1])]) + ('()' if v[3] == 'call' else '')
+      text = self._ref_text(v)
       return self.config.parse_value(text)
     if t == 'pct':
       return self.config.parse_value('%' + dotted(v[1]))
@@ -684,13 +685,29 @@ class World:
       raise AdapterError('unknown action %s' % op)
     return res
 
+  def _ref_text(self, v):
+    """`@scope/name()`: every other reference is written with a shorter, still unambiguous spelling of its target
+    (`@W/macro()` for gin.macro, `@g()` for m.g): what a reference denotes never depends on how it was spelled."""
+    name = dotted(v[1])
+    comps = list(v[1])
+    if (self.step + self.pool_seed) % 2 and (self.desc.get(name) or {}).get('kind') != 'meth':
+      for i in range(len(comps) - 1, 0, -1):
+        cand = '.'.join(comps[i:])
+        try:
+          if list(self.config._REGISTRY.matching_selectors(cand)) == [name]:
+            name = cand
+            break
+        except Exception:  # pylint: disable=broad-except
+          break
+    return '@' + '/'.join(list(v[2]) + [name]) + ('()' if v[3] == 'call' else '')
+
   def literal_text(self, v):
     """Config-file text of a specification value."""
     t = v[0]
     if t == 'lit':
       return repr(self.to_real(v))
     if t == 'ref':
-      return '@' + '/'.join(list(v[2]) + [dotted(v[1])]) + ('()' if v[3] == 'call' else '')
+      return self._ref_text(v)
     if t == 'pct':
       return '%' + dotted(v[1])
     if t == 'list':
@@ -935,11 +952,11 @@ def compare_state(want, got, fields=ALL_FIELDS):
   return None
 
 
-def replay(beh, fields=ALL_FIELDS, at_end=None):
+def replay(beh, fields=ALL_FIELDS, at_end=None, salt=0):
   """Steps one exported GinCore behaviour through the real gin.
   Returns None if the code conforms, else a dict describing the first divergence."""
   # literal pools are seeded from the behaviour itself, so that a replay file reproduces exactly
-  world = World(beh[0]['reg'], pool_seed=zlib.crc32(core.jdump([s['out'] for s in beh[:4]]).encode()) + core.seed())
+  world = World(beh[0]['reg'], pool_seed=zlib.crc32(core.jdump([s['out'] for s in beh[:4]]).encode()) + core.seed() + salt)
   try:
     bad = {k: v for k, v in world.reg_status.items() if v != 'ok'}
     if bad:
